@@ -232,3 +232,295 @@ r2_string!(r2_string_3, &[3]);
 r2_string!(r2_string_4, &[4]);
 r2_string!(r2_string_1_4, &[1, 4]);
 r2_string!(r2_string_3_2, &[3, 2]);
+
+// ---------------------------------------------------------------------------------------------
+// R9: Any scalars (one instance per variant; every payload value)
+// ---------------------------------------------------------------------------------------------
+fn r9_roundtrip(x: &Any) -> Any {
+    let mut out: Vec<u8> = Vec::new();
+    x.encode(&mut out);
+    let n = out.len();
+    let mut c = Cursor::new(&out);
+    let y = match Any::decode(&mut c) {
+        Ok(y) => y,
+        Err(_) => panic!("an encoded Any must decode"),
+    };
+    assert!(c.next == n);
+    std::mem::forget(out);
+    y
+}
+
+#[kani::proof]
+#[kani::unwind(12)]
+#[kani::stub(std::hash::RandomState::new, random_state_new)]
+fn r9_any_bigint() {
+    let v: i64 = kani::any();
+    let y = r9_roundtrip(&Any::BigInt(v));
+    assert!(matches!(&y, Any::BigInt(x) if *x == v));
+    std::mem::forget(y);
+    kani::cover!(true, "reach");
+}
+
+#[kani::proof]
+#[kani::unwind(12)]
+#[kani::stub(std::hash::RandomState::new, random_state_new)]
+fn r9_any_buffer() {
+    let data: [u8; 3] = kani::any();
+    let x = Any::Buffer(Arc::from(&data[..]));
+    match r9_roundtrip(&x) {
+        Any::Buffer(b) => {
+            assert!(b.len() == 3 && b[0] == data[0] && b[1] == data[1] && b[2] == data[2]);
+            std::mem::forget(b);
+        }
+        _ => panic!("a buffer must decode as a buffer"),
+    }
+    kani::cover!(true, "reach");
+    std::mem::forget(x);
+}
+
+// ---------------------------------------------------------------------------------------------
+// R3: v2 column decoders against a reference model of the lib0 v2 column formats.
+// The column under test holds an arbitrary byte string (well-framed buffer, as in C10/T2); the
+// real `DecoderV2` reads are compared, read by read, with a short model that parses the same
+// bytes with the (separately decided, R1/T1) var-int readers and applies the format definition:
+//   UintOptRle:    signed var-int s; s negative (incl. -0) => value = -s, count = var-uint + 2;
+//                  else value = s, count = 1
+//   IntDiffOptRle: var-int d; diff = d >> 1 (arithmetic); count = (d & 1) ? var-uint + 2 : 1;
+//                  every read adds diff to the previous value (starting from 0)
+//   Rle:           byte value; count = var-uint + 1 if more bytes follow, else the value repeats
+// ---------------------------------------------------------------------------------------------
+use crate::c10::v2_columns;
+
+pub struct UintOptRleModel<'a> {
+    c: Cursor<'a>,
+    last: u64,
+    count: u32,
+}
+impl<'a> UintOptRleModel<'a> {
+    pub fn new(buf: &'a [u8]) -> Self {
+        UintOptRleModel { c: Cursor::new(buf), last: 0, count: 0 }
+    }
+    pub fn read(&mut self) -> Option<u64> {
+        if self.count == 0 {
+            let s = self.c.read_var_signed::<i64>().ok()?;
+            if s.is_negative() {
+                let n: u32 = self.c.read_var().ok()?;
+                self.count = n.checked_add(2)?;
+                self.last = s.value().unsigned_abs();
+            } else {
+                self.count = 1;
+                self.last = s.value() as u64;
+            }
+        }
+        self.count -= 1;
+        Some(self.last)
+    }
+}
+
+pub struct IntDiffOptRleModel<'a> {
+    c: Cursor<'a>,
+    last: u32,
+    count: u32,
+    diff: i32,
+}
+impl<'a> IntDiffOptRleModel<'a> {
+    pub fn new(buf: &'a [u8]) -> Self {
+        IntDiffOptRleModel { c: Cursor::new(buf), last: 0, count: 0, diff: 0 }
+    }
+    pub fn read(&mut self) -> Option<u32> {
+        if self.count == 0 {
+            let d: i32 = self.c.read_var().ok()?;
+            // floor division by two, written without a shift
+            self.diff = d.div_euclid(2);
+            self.count = if d & 1 != 0 {
+                let n: u32 = self.c.read_var().ok()?;
+                n.checked_add(2)?
+            } else {
+                1
+            };
+        }
+        self.last = (self.last as i64 + self.diff as i64) as u32;
+        self.count -= 1;
+        Some(self.last)
+    }
+}
+
+macro_rules! r3_uint_col {
+    ($name:ident, $col:expr, $k:expr, $r:expr, |$d:ident| $read:expr) => {
+        #[kani::proof]
+        #[kani::unwind(12)]
+        fn $name() {
+            let content: [u8; $k] = kani::any();
+            let (buf, n) = v2_columns::<$k>($col, &content, $k, 99, &[]);
+            let mut model = UintOptRleModel::new(&content[..]);
+            match DecoderV2::new(Cursor::new(&buf[..n])) {
+                Ok(mut $d) => {
+                    let mut i = 0;
+                    let mut alive = true;
+                    while i < $r {
+                        if alive {
+                            let real: Option<u64> = $read;
+                            let want = model.read();
+                            assert!(real == want, "v2 UintOptRle column decodes differently from the format");
+                            alive = real.is_some();
+                            kani::cover!(i == $r - 1 && real.is_some(), "all reads ok");
+                        }
+                        i += 1;
+                    }
+                    std::mem::forget($d);
+                }
+                Err(_) => panic!("well-framed buffer"),
+            }
+            kani::cover!(true, "reach");
+        }
+    };
+}
+// a decoded client id above 53 bits is an error of `read_client`, not of the column format
+
+/// The len column truncates to u32 / the type-ref column to u8 by `as`: the model applies the
+/// same truncation (it is part of the reader's signature, not of the column format).
+macro_rules! r3_uint_col_trunc {
+    ($name:ident, $col:expr, $k:expr, $r:expr, $t:ty, |$d:ident| $read:expr) => {
+        #[kani::proof]
+        #[kani::unwind(12)]
+        fn $name() {
+            let content: [u8; $k] = kani::any();
+            let (buf, n) = v2_columns::<$k>($col, &content, $k, 99, &[]);
+            let mut model = UintOptRleModel::new(&content[..]);
+            match DecoderV2::new(Cursor::new(&buf[..n])) {
+                Ok(mut $d) => {
+                    let mut i = 0;
+                    let mut alive = true;
+                    while i < $r {
+                        if alive {
+                            let real: Option<$t> = $read;
+                            let want = model.read().map(|v| v as $t);
+                            assert!(real == want, "v2 UintOptRle column decodes differently from the format");
+                            alive = real.is_some();
+                            kani::cover!(i == $r - 1 && real.is_some(), "all reads ok");
+                        }
+                        i += 1;
+                    }
+                    std::mem::forget($d);
+                }
+                Err(_) => panic!("well-framed buffer"),
+            }
+            kani::cover!(true, "reach");
+        }
+    };
+}
+r3_uint_col_trunc!(r3_col_len_u32, 8, 5, 3, u32, |d| d.read_len().ok());
+r3_uint_col_trunc!(r3_col_type_ref_u8, 7, 5, 3, u8, |d| d.read_type_ref().ok());
+
+macro_rules! r3_diff_col {
+    ($name:ident, $col:expr, $k:expr, $r:expr, |$d:ident| $read:expr) => {
+        #[kani::proof]
+        #[kani::unwind(12)]
+        fn $name() {
+            let content: [u8; $k] = kani::any();
+            // client column: value 1 repeated (the id readers consume one client per read)
+            let (buf, n) = v2_columns::<$k>($col, &content, $k, 1, &[0x41, 5]);
+            let mut model = IntDiffOptRleModel::new(&content[..]);
+            match DecoderV2::new(Cursor::new(&buf[..n])) {
+                Ok(mut $d) => {
+                    let mut i = 0;
+                    let mut alive = true;
+                    while i < $r {
+                        if alive {
+                            let real: Option<u32> = $read;
+                            let want = model.read();
+                            assert!(real == want, "v2 IntDiffOptRle column decodes differently from the format");
+                            alive = real.is_some();
+                            kani::cover!(i == $r - 1 && real.is_some(), "all reads ok");
+                        }
+                        i += 1;
+                    }
+                    std::mem::forget($d);
+                }
+                Err(_) => panic!("well-framed buffer"),
+            }
+            kani::cover!(true, "reach");
+        }
+    };
+}
+r3_diff_col!(r3_col_left_clock, 2, 5, 3, |d| d.read_left_id().ok().map(|id| id.clock));
+r3_diff_col!(r3_col_right_clock, 3, 5, 3, |d| d.read_right_id().ok().map(|id| id.clock));
+
+/// Rle columns (info, parent info).
+#[kani::proof]
+#[kani::unwind(12)]
+fn r3_col_info() {
+    let content: [u8; 5] = kani::any();
+    let k = any_len(5);
+    let (buf, n) = v2_columns::<5>(4, &content, k, 99, &[]);
+    // model
+    let mut c = Cursor::new(&content[..k]);
+    let mut last = 0u8;
+    let mut count: i64 = 0;
+    match DecoderV2::new(Cursor::new(&buf[..n])) {
+        Ok(mut d) => {
+            let mut i = 0;
+            let mut alive = true;
+            while i < 3 {
+                if alive {
+                    let real = d.read_info().ok();
+                    let want: Option<u8> = (|| {
+                        if count == 0 {
+                            last = c.read_u8().ok()?;
+                            if c.has_content() {
+                                let n: u32 = c.read_var().ok()?;
+                                count = n as i64 + 1;
+                            } else {
+                                count = -1;
+                            }
+                        }
+                        if count > 0 {
+                            count -= 1;
+                        }
+                        Some(last)
+                    })();
+                    assert!(real == want, "v2 Rle column decodes differently from the format");
+                    alive = real.is_some();
+                    kani::cover!(i == 2 && real.is_some(), "all reads ok");
+                }
+                i += 1;
+            }
+            std::mem::forget(d);
+        }
+        Err(_) => panic!("well-framed buffer"),
+    }
+    kani::cover!(true, "reach");
+}
+
+
+/// Client column: UintOptRle values that fit 53 bits come back as client ids, larger ones are
+/// rejected (fix b59a39d).
+#[kani::proof]
+#[kani::unwind(12)]
+fn r3_col_client() {
+    let content: [u8; 5] = kani::any();
+    let (buf, n) = v2_columns::<5>(1, &content, 5, 99, &[]);
+    let mut model = UintOptRleModel::new(&content[..]);
+    match DecoderV2::new(Cursor::new(&buf[..n])) {
+        Ok(mut d) => {
+            let mut i = 0;
+            let mut alive = true;
+            while i < 3 {
+                if alive {
+                    let real: Option<u64> = d.read_client().ok().map(|c| c.get());
+                    let want = match model.read() {
+                        Some(v) if v < (1u64 << 53) => Some(v),
+                        _ => None,
+                    };
+                    assert!(real == want, "v2 client column decodes differently from the format");
+                    alive = real.is_some();
+                    kani::cover!(i == 2 && real.is_some(), "all reads ok");
+                }
+                i += 1;
+            }
+            std::mem::forget(d);
+        }
+        Err(_) => panic!("well-framed buffer"),
+    }
+    kani::cover!(true, "reach");
+}
